@@ -7,6 +7,8 @@ extended precision, plus differential runs sharing every choice: with/without
 n_final_samples, with/without checkpoint callback (cadence 1, 2)."""
 import copy
 
+import numpy as np
+
 from env.schedule_harness import run_execution
 from mc import explorer
 from mc.par import pmap
@@ -18,7 +20,7 @@ RULE = ("complete choice tree (no deviation bound) of the real SMC loop with N i
         "after each of the first 2 iterations chosen from {flat, spread 3, spread 1e3} (the initial one also from a population with a zero-likelihood particle), every resampling index tuple with "
         "non-zero probability; schedules: fixed n=1,2,3, adaptive (eff 0.5/0.9), adaptive+min_step, floor+cap, and runs that the step cap ends below temperature 1; each execution is paired "
         "with a run sharing all choices that adds n_final_samples or a checkpoint callback (every 1 / 2); continuous 2-D runs are interrupted at every user-callable call and resumed from the last checkpoint (pickled bytes and the live dictionary) and must report the same ratios and evidence. "
-        "non-trivial = at least one step whose incremental weights are not all equal")
+        "Plus the per-step ratio and variance methods on populations in {numpy, torch, jax} x {float32, float64} against the definitions. non-trivial = at least one step whose incremental weights are not all equal")
 ASSUMPTIONS = [
     "teleport kernel stub (evidence accumulation does not depend on how the kernel moves particles)",
     "populations with log-weight spread in {0, 3, 1e3}; N<=3; <=3 iterations enumerated",
@@ -161,9 +163,52 @@ def dispatch(job):
     return globals()[job[0]](job[1])
 
 
+def run_direct(arg):
+    """The per-step ratio and its variance, evaluated on populations of every namespace and width, against the definitions."""
+    ns, dt = arg
+    import mpmath as mp
+
+    from checks.c09 import build
+    from env import tonp
+    from oracles import ref
+
+    r = Report()
+    eps = 1.2e-7 if dt == "float32" else 2.3e-16
+    pops = [[0.0, -3.0], [0.0, -1.0, -2.5, -0.3], [0.0, -40.0, -5.0], [2.0, 2.0, 2.0], [0.0, -1.0, -2.0, -3.0, -4.0, -0.5, -7.0],
+            [0.0, -float("inf"), -1.0, -2.0]]
+    for a in pops:
+        for b0, b1 in ((0.0, 0.3), (0.3, 1.0), (0.25, 0.75), (0.0, 1.0)):
+            case = {"direct": True, "ns": ns, "dtype": dt, "a": [v if v > -1e300 else "-inf" for v in a], "betas": [b0, b1]}
+            r.case(explorer.digest(case), nontrivial=len(set(a)) > 1)
+            try:
+                s = build(a, ns, dt, b0)
+                ratio = float(tonp(s.log_evidence_ratio(b1)))
+                var = float(tonp(s.log_evidence_ratio_variance(b1)))
+            except Exception as e:
+                from env import exc_site
+
+                r.violation(f"C08/direct/raises/{type(e).__name__}/{exc_site(e)}/{ns}", repr(e)[:200], case)
+                continue
+            # reference on the stored (rounded) fields
+            aa = (tonp(s.log_likelihood).astype(np.float64) + tonp(s.log_prior).astype(np.float64) - tonp(s.log_q).astype(np.float64)).tolist()
+            logu = [(b1 - b0) * v if v > -1e300 else -float("inf") for v in aa]
+            lr = float(ref.log_mean_exp(logu))
+            v_ref = float(ref.delta_var(logu))
+            scale = 1 + max(abs(v) for v in logu if v > -1e300)
+            if not abs(ratio - lr) <= 64 * eps * scale:
+                r.violation(f"C08/direct/step-ratio/{ns}", {"got": ratio, "ref": lr}, case)
+            # relative to the variance, plus the variance that rounding noise of size eps*scale in the weights produces by itself
+            if not abs(var - v_ref) <= 256 * eps * scale * v_ref + (64 * eps * scale) ** 2:
+                r.violation(f"C08/direct/step-variance/{ns}", {"got": var, "ref": v_ref, "n": len(a)}, case)
+            r.outcomes.add(explorer.digest([round(lr, 9), round(v_ref, 9)]))
+    r.sample({"direct": True, "ns": ns, "dtype": dt})
+    return r.dump()
+
+
 def run(tier, seed, workers):
     rep = Report()
     jobs = [("run_tree", c) for c in configs(tier)]
+    jobs += [("run_direct", (ns, dt)) for ns in ("numpy", "torch", "jax") for dt in ("float64", "float32")]
     for sampler in ("smc", "emcee_smc"):
         for opts in ({"adaptive": True, "target_efficiency": 0.8}, {"adaptive": False, "n_steps": 3}):
             for cadence in (1, 2):
@@ -181,6 +226,9 @@ def replay(case):
     from checks.c06 import _fix
 
     r = Report()
+    if case.get("direct"):
+        r.merge(run_direct((case["ns"], case["dtype"])))
+        return r
     if case.get("interrupted"):
         cfg = case["cfg"]
         r.merge(run_interrupted(cfg))
